@@ -905,6 +905,27 @@ func FileWriteTo(f *os.File, w io.Writer) (int64, error) {
 	return io.Copy(plainWriter{w}, plainReader{fileRW{f}})
 }
 
+//gosym:replace (*os.File).Truncate
+func FileTruncate(f *os.File, size int64) error {
+	h := hnd(f)
+	if h == nil || h.closed {
+		return os.ErrClosed
+	}
+	if !h.write || size < 0 {
+		return &os.PathError{Op: "truncate", Path: h.name, Err: syscall.EINVAL}
+	}
+	n := int(size)
+	if n < len(h.n.Data) {
+		h.n.Data = h.n.Data[:n]
+	}
+	for len(h.n.Data) < n {
+		h.n.Data = append(h.n.Data, 0)
+	}
+	h.n.Mtime = now()
+	logOp("write", h.path)
+	return nil
+}
+
 //gosym:replace (*os.File).Sync
 func FileSync(f *os.File) error { return nil }
 
